@@ -24,6 +24,7 @@ func init() {
 	zzverif.Register("VerifC12Seq", VerifC12Seq)
 	zzverif.Register("VerifC12Seq1", VerifC12Seq1)
 	zzverif.Register("VerifC12Payload", VerifC12Payload)
+	zzverif.Register("VerifC12Return", VerifC12Return)
 	zzverif.Register("VerifC12SeqWide", VerifC12SeqWide)
 	zzverif.Register("VerifC12SeqLong", VerifC12SeqLong)
 	zzverif.Register("VerifC12SeqOrder", VerifC12SeqOrder)
@@ -466,4 +467,44 @@ func VerifC12Payload() {
 	c12CompareWorkspaces(w, c12Fresh(), dropped)
 	zzverif.Observe("formats", hxRenderFormats(w.GetCommodityFormats()))
 	zzverif.Reach("C12.payload.end")
+}
+
+// ---- a file leaves the tree, changes while it is outside, and returns ----
+
+// VerifC12Return: three updates with a fixed plot and chosen contents: the root stops including
+// one of its files (update 1), that file's content is replaced while nothing includes it
+// (update 2: the workspace is told, as the server does for every open document, and the file
+// is written), the root includes it again (update 3). After every step the views must equal a
+// fresh workspace's. What the workspace remembers about a file that left must not come back.
+func VerifC12Return() {
+	root0 := "include a.journal\ninclude b.journal\n\n" + c12Tx(2, "15")
+	leaves := 1 + zzverif.Choice("leaves", 2) // a or b
+	root1 := "include " + c12Names[3-leaves] + "\n\n" + c12Tx(2, "15")
+	zzverif.WriteFile(c12Path(c12Root), root0)
+	for f := 1; f <= 2; f++ {
+		nm := "init." + zzverif.Itoa(f)
+		zzverif.WriteFile(c12Path(f), c12Content(f, zzverif.Choice(nm, 3), nm))
+	}
+	w := NewWorkspace(zzverif.Root(), include.NewLoader())
+	err := w.Initialize()
+	zzverif.Assert(err == nil, "Initialize fails")
+	dropped := map[string]bool{}
+	step := func(f int, content string) {
+		zzverif.WriteFile(c12Path(f), content)
+		old := map[string]*FileIndex{}
+		for p, fi := range w.index.fileIndexes {
+			old[p] = fi
+		}
+		w.UpdateFile(c12Path(f), content)
+		for p, fi := range old {
+			if w.index.fileIndexes[p] != fi {
+				c12TemplateKeys(fi, dropped)
+			}
+		}
+		c12CompareWorkspaces(w, c12Fresh(), dropped)
+	}
+	step(c12Root, root1)
+	step(leaves, c12Content(leaves, zzverif.Choice("outside", 3), "outside"))
+	step(c12Root, root0)
+	zzverif.Reach("C12.return.end")
 }
